@@ -237,21 +237,29 @@ func analyseReadyLoop(c *Ctx, fn *ssa.Function, ro *roles) *readyLoop {
 				}
 				// a dispatch helper of the loop (method on the same receiver) that contains apply sites
 				if g := cc.StaticCallee(); kind == "" && f == fn && g != nil && g != fn && modLocal(g) && recvTypeName(g) == recvTypeName(fn) && recvTypeName(fn) != "" {
-					inner := 0
-					eachInstr(g, func(j ssa.Instruction) {
-						c2 := asCall(j)
-						if c2 == nil {
-							return
-						}
-						if c2.StaticCallee() == nil && !c2.IsInvoke() {
-							if fld := fieldOfValue(c2.Value); fld != nil && typeName(fld.Type()) == "ProcessFn" {
-								inner++
+					// (the helper may hand the work on once or twice more: applyCommitted -> applyEntry)
+					var countIn func(g2 *ssa.Function, d int) int
+					countIn = func(g2 *ssa.Function, d int) int {
+						cnt := 0
+						eachInstr(g2, func(j ssa.Instruction) {
+							c2 := asCall(j)
+							if c2 == nil {
+								return
 							}
-						}
-						if h := c2.StaticCallee(); h != nil && isConfFn(h) {
-							inner++
-						}
-					})
+							if c2.StaticCallee() == nil && !c2.IsInvoke() {
+								if fld := fieldOfValue(c2.Value); fld != nil && typeName(fld.Type()) == "ProcessFn" {
+									cnt++
+								}
+							}
+							if h := c2.StaticCallee(); h != nil && isConfFn(h) {
+								cnt++
+							} else if h != nil && d < 3 && h != fn && h != g2 && modLocal(h) && recvTypeName(h) == recvTypeName(fn) {
+								cnt += countIn(h, d+1)
+							}
+						})
+						return cnt
+					}
+					inner := countIn(g, 0)
 					if inner > 0 {
 						kind = "apply"
 						rl.applyWhy[i] = fmt.Sprintf("dispatch helper %s with %d apply site(s)", g.Name(), inner)
